@@ -16,6 +16,9 @@ package main
 //	            and Checksum cleared; F = 1 file decodes to exactly the published state, 0 it does
 //	            not, - no file; V = 1 Snapshot().Validate() passes, 0 fails, - uninitialised
 //	    <res> = <C|U|N|R|?>:<reason|->:<revision>:<applied>:<task transition digest|->
+//	contract               per entry, on the candidate state the one-at-a-time run reaches: the handler's
+//	                       outcome must not depend on the published state, and Noop/Rejected must leave
+//	                       the candidate untouched   -> <kind>:<O>:<reason>:<kept|CHANGED|->:<indep|DEP> ...
 
 import (
 	"context"
@@ -248,8 +251,84 @@ func (r *c18Runner) Step(op string) string {
 			out = append(out, line)
 		}
 		return strings.Join(out, " ")
+	case "contract":
+		if len(f) != 1 {
+			return "bad-op"
+		}
+		return r.contractOp()
 	}
 	return "bad-op"
+}
+
+// contractOp checks, for every entry of the log, the contract the batch theorems
+// need from the command handlers (Lean: WK.C18.MutateContract): with the candidate
+// state the one-at-a-time run reaches before the entry,
+//   - the outcome and the resulting candidate do not depend on the PUBLISHED state
+//     (the candidate itself / the empty state / the state after the first entry);
+//   - a Noop or Rejected command leaves the candidate byte-for-byte unchanged.
+//
+// output per entry: <kind>:<C|U|N|R>:<reason>:<kept|CHANGED|->:<indep|DEP>
+func (r *c18Runner) contractOp() string {
+	r.runs++
+	dir := filepath.Join(r.root, fmt.Sprintf("run-%d", r.runs))
+	if err := os.MkdirAll(dir, 0o700); err != nil {
+		return "ERR:mkdir"
+	}
+	defer os.RemoveAll(dir)
+	ctx := context.Background()
+	sm, err := fsm.New(statefile.New(filepath.Join(dir, "cluster-state.json")))
+	if err != nil {
+		return "ERR:new"
+	}
+	if err := sm.Load(ctx); err != nil {
+		return "ERR:load"
+	}
+	var out []string
+	var afterFirst *state.ClusterState
+	for k, en := range r.log {
+		if !en.ok {
+			out = append(out, "undecodable")
+			continue
+		}
+		cand := sm.Snapshot(ctx)
+		pubs := []state.ClusterState{cand, {}}
+		if afterFirst != nil {
+			pubs = append(pubs, *afterFirst)
+		}
+		var first string
+		var firstRes fsm.ApplyResult
+		indep := "indep"
+		kept := "-"
+		for i, pub := range pubs {
+			next, res := fsm.VerifApplyMutation(pub, cand, en.idx, en.term, en.cmd)
+			res.Revision, res.AppliedRaftIndex = 0, 0
+			sig := c18Res(res) + "|" + c18Full(next)
+			if i == 0 {
+				first, firstRes = sig, res
+				if res.Noop || res.Rejected {
+					kept = "kept"
+				}
+			} else if sig != first {
+				indep = "DEP"
+			}
+			if (res.Noop || res.Rejected) && c18Full(next) != c18Full(cand) {
+				kept = "CHANGED"
+			}
+		}
+		parts := strings.Split(c18Res(firstRes), ":")
+		out = append(out, fmt.Sprintf("%s:%s:%s:%s:%s", en.cmd.Kind, parts[0], parts[1], kept, indep))
+		if _, err := sm.ApplyBatch(ctx, []fsm.AppliedCommand{{Index: en.idx, Term: en.term, Command: en.cmd}}); err != nil {
+			return strings.Join(append(out, "ERR:apply"), " ")
+		}
+		if k == 0 {
+			s := sm.Snapshot(ctx)
+			afterFirst = &s
+		}
+	}
+	if len(out) == 0 {
+		return "empty"
+	}
+	return strings.Join(out, " ")
 }
 
 // ------------------------------------------------------------ generator ---
@@ -1104,6 +1183,7 @@ func genC18(g *Gen) {
 			single = append(single, i)
 		}
 		g.Op("run", "%s", c18RunLine(g, single, 0, 0))
+		g.Op("contract", "")
 		if short {
 			g.Count("log:short-all-partitions")
 			for _, cuts := range c18Partitions(n) {
